@@ -1100,5 +1100,9 @@ class Ambiguity:
                 cconstr = ConeConstr(self.mix_model, exp_var, q[1:],
                                      exp_var, q[0])
                 self.mix_model.st(cconstr)
+            for ex in exp_support.xmat:
+                xconstr = ExpConstr(self.mix_model, exp_var[ex[0]],
+                                    exp_var[ex[1]], exp_var[ex[2]])
+                self.mix_model.st(xconstr)
 
         return self.mix_model.do_math(primal, obj=False)
